@@ -716,6 +716,9 @@ def case_whole_ndarray_wrong_shape(prog, A, how, via, taint_mode="abort"):
         ax = full_axes(w, A)[:-1] + [tuple(w.items("e"))]
     elif how == "flodym-array":
         ax = None
+    elif how == "squeezed":
+        # the target's shape with the axes of its single-item dimensions left out: not the target's shape
+        ax = [a for l, a in zip(A, full_axes(w, A)) if l != "s"]
     else:
         raise AnalysisError(how)
     val = w.array("y", A) if ax is None else w.user_ndarray("u", ax)
@@ -747,6 +750,10 @@ def case_ctor_wrong_shape(prog, A, how, cls_name="FlodymArray", taint_mode="abor
         ax = full_axes(w, A) + [tuple(w.items("e"))]
     elif how == "number":
         ax = None
+    elif how == "squeezed":
+        ax = [a for l, a in zip(A, full_axes(w, A)) if l != "s"]
+    else:
+        raise AnalysisError(how)
     val = SymScalar(("sym", "k")) if ax is None else w.user_ndarray("u", ax)
     snaps = w.snap(ds)
     kind, r = run_guarded(lambda: w.it.construct(prog.cls(cls_name), [], dict(dims=ds, values=val)))
@@ -1084,6 +1091,12 @@ def illformed_cases(prog, taint_mode="abort"):
                 if how == "transposed" and len(A) < 2:
                     continue
                 yield lambda A=A, how=how, cls=cls: case_ctor_wrong_shape(prog, A, how, cls, taint_mode)
+    # a dimension with a single item still has its axis: values given without it are not of the array's shape
+    for A in [("s", "a"), ("a", "s"), ("s", "b", "a")]:
+        for via in ("set_values", "__setitem__"):
+            yield lambda A=A, via=via: case_whole_ndarray_wrong_shape(prog, A, "squeezed", via, taint_mode)
+        for cls in ("FlodymArray", "Parameter"):
+            yield lambda A=A, cls=cls: case_ctor_wrong_shape(prog, A, "squeezed", cls, taint_mode)
     for A in [("a",), ("b", "a")]:
         for cls in ("FlodymArray", "StockArray", "Parameter"):
             for via in ("constructor", "from_dims_superset"):
